@@ -10,7 +10,16 @@ A case is an operation history on the process-wide switch:
                       | [8, i, w, 0, d, u] / [8, i, w, 1, k] decorate AGAIN (directly with decorator d / with the k-th kept decorator
                         object) an object that went through a decorator earlier in the history: w = 0 the object that was GIVEN
                         to the decorator when the i-th decorated object was made, w = 1 the i-th decorated object itself
-                      | [9, i, 0, d, u] / [9, i, 1, k] define a FRESH SUBCLASS of the i-th decorated object (a class) and decorate it]}
+                      | [9, i, 0, d, u] / [9, i, 1, k] define a FRESH SUBCLASS of the i-th decorated object (a class) and decorate it
+                      | [10, d, t, u, hook, thread] BEGIN an OVERLAPPING decoration: class decorator d (2..6) is applied to a fresh class
+                        of kind t that carries hooks which fire WHILE the class decorator is at work: hook 0 (d = 6 only) the method
+                        decorator handed to for_all_methods, hook 1 descriptors in the namespace of the class (read by getattr(cls, name)).
+                        The ops up to the matching [12] run inside those hooks, [11] separates what the 1st, 2nd ... firing runs;
+                        segments whose hook never fires (decorator disabled, fewer firings) run right after the decorator returned,
+                        so the ORDER of the operations is always the order of the list.  thread 0: one thread; 1: the class
+                        decorator runs in a second thread and hands every segment over to the main thread; 2: the class decorator
+                        runs in the main thread, every segment in a second thread.  The decorated class counts as an object from [12] on
+                      | [11] next hook firing | [12] END of the overlapping decoration (its observation is reported here)]}
   v: 0 "0", 1 "1", 2 "2", 3 "", 4 "true", 5 unset.
 The worker process itself was started (and `pedantic` imported) with the variable unset / "0" / "1" (driver: run_impl env).
 
@@ -19,7 +28,9 @@ Per op one observation code, the encoding of Model/EnvEval.v:
   4 call behaves like the undecorated callable, 5 call is checked/wrapped, 6 call-time failure of the switch,
   7 inconsistent probes / object changed after decoration, 8 harness problem (never expected).
 No message texts, addresses or timings are compared."""
-import sys, os, io, json, importlib.util, contextlib
+import sys, os, io, json, importlib.util, contextlib, threading, queue
+
+HANDOVER_TIMEOUT = 120      # seconds a thread waits for the other one before the case is given up (harness problem, code 8)
 
 NAME = 'ENABLE_PEDANTIC'
 VALS = {0: '0', 1: '1', 2: '2', 3: '', 4: 'true'}
@@ -379,6 +390,54 @@ def probe(entry, applied):
     return 7, [str([x[:2] + (x[2][:30],) for x in r])]
 
 
+def parse_history(ops):
+    """the operations as a tree: ('op', k, op) | ('outer', {'k', 'op', 'segs': [[nodes]], 'end'}); [11] / [12] without an open [10]
+    stay plain operations (nothing happens)"""
+    root, stack, cur = [], [], None
+    cur = root
+    for k, op in enumerate(ops):
+        code = op[0] if op else None
+        if code == 10:
+            node = {'k': k, 'op': op, 'segs': [[]], 'end': None}
+            cur.append(('outer', node))
+            stack.append((node, cur))
+            cur = node['segs'][-1]
+        elif code == 11 and stack:
+            stack[-1][0]['segs'].append([])
+            cur = stack[-1][0]['segs'][-1]
+        elif code == 12 and stack:
+            node, cur = stack.pop()
+            node['end'] = k
+        else:
+            cur.append(('op', k, op))
+    return root
+
+
+class Hook:
+    """a descriptor in the namespace of a class: reading the attribute from the class fires the hook"""
+    def __init__(self, fire):
+        self._fire = fire
+
+    def __get__(self, inst, owner):
+        self._fire()
+        return None
+
+
+def with_hooks(cls, n, fire):
+    """the same class body with n hook descriptors spread over its namespace (one first, then one after each entry)"""
+    items = [(k, v) for k, v in cls.__dict__.items() if k not in ('__dict__', '__weakref__')]
+    ns, j = {'_pv_hook_0': Hook(fire)}, 1
+    for k, v in items:
+        ns[k] = v
+        if j < n:
+            ns['_pv_hook_%d' % j] = Hook(fire)
+            j += 1
+    while j < n:
+        ns['_pv_hook_%d' % j] = Hook(fire)
+        j += 1
+    return type(cls)(cls.__name__, cls.__bases__, ns)
+
+
 def run_case(case, targets):
     import pedantic
     from pedantic import (pedantic as p_pedantic, pedantic_require_docstring, pedantic_class, pedantic_class_require_docstring,
@@ -406,7 +465,7 @@ def run_case(case, targets):
     decos = []
     create_reads = []
     objs = []
-    obs = []
+    obs = [0] * len(case['ops'])
     details = {}
     call_reads = []
     applied = {}
@@ -440,14 +499,14 @@ def run_case(case, targets):
         others = [(x, sn) for x, sn in world() if x is not given]
         a = attempt(lambda: deco(given))
         if a[0] != 'ret':
-            obs.append(3)                           # like the model: nothing is added to the list of decorated objects
+            obs[k] = 3                              # like the model: nothing is added to the list of decorated objects
             details[str(k)] = list(a[:2])
             return
         res = a[1]
         after = snapshot(res)
         touched = [x for x, sn in others if not same_snapshot(snapshot(x), sn)]
         identical = res is given and same_snapshot(before, after) and a[2] == '' and not touched
-        obs.append(1 if identical else 2)
+        obs[k] = 1 if identical else 2
         if touched and res is given and same_snapshot(before, after):
             details[str(k)] = ['another object was modified: ' + ', '.join(getattr(x, '__name__', '?') for x in touched)]
         if fam == 'cls':
@@ -460,24 +519,24 @@ def run_case(case, targets):
         objs.append({'d': d, 't': t, 'u': u, 'res': res, 'after': after, 'journal': journal, 'target': given, 'fam': fam,
                      'meth': meth, 'sub': sub, 'base': base})
 
-    for k, op in enumerate(case['ops']):
+    def exec_op(k, op):
         code = op[0]
         if code == 0:
-            set_env(op[1]); obs.append(0)
+            set_env(op[1]); obs[k] = 0
         elif code == 1:
-            set_env(5); obs.append(0)
+            set_env(5); obs[k] = 0
         elif code == 2:
-            enable_pedantic(); obs.append(0)
+            enable_pedantic(); obs[k] = 0
         elif code == 3:
-            disable_pedantic(); obs.append(0)
+            disable_pedantic(); obs[k] = 0
         elif code in (4, 7):
             if code == 4:                           # create the decorator object and apply it in one go
                 d, t, u = op[1], op[2] if len(op) > 2 else 0, op[3] if len(op) > 3 else 0
                 deco, journal = make_deco(d, u, direct=True)
             else:                                   # apply a decorator object that was created earlier
                 if op[1] >= len(decos):
-                    obs.append(0)
-                    continue
+                    obs[k] = 0
+                    return
                 d, u, deco, journal = decos[op[1]]
                 t = op[2] if len(op) > 2 else 0
             target = targets.make_fn(t) if d in (0, 1) else targets.make_cls(t)
@@ -486,23 +545,23 @@ def run_case(case, targets):
             i, w, kind, x = (op + [0, 0, 0, 0])[1:5]
             r = resolve(kind, x, op[5] if len(op) > 5 else 0) if 0 <= i < len(objs) else None
             if r is None or ('fn' if r[0] in (0, 1) else 'cls') != objs[i]['fam']:
-                obs.append(0)
-                continue
+                obs[k] = 0
+                return
             e = objs[i]
             decorate(k, r[0], r[1], r[2], r[3], e['res'] if w else e['target'], e['t'], e['meth'], e['sub'], e['base'])
         elif code == 9:                             # a fresh subclass of an object that went through a decorator
             i, kind, x = (op + [0, 0, 0])[1:4]
             r = resolve(kind, x, op[4] if len(op) > 4 else 0) if 0 <= i < len(objs) else None
             if r is None or r[0] in (0, 1) or objs[i]['fam'] != 'cls':
-                obs.append(0)
-                continue
+                obs[k] = 0
+                return
             e = objs[i]
             try:
                 sub = targets.make_sub(e['res'])
             except Exception as ex:                 # a base class that cannot be subclassed: not generated
-                obs.append(8)
+                obs[k] = 8
                 details[str(k)] = ['subclass could not be defined', type(ex).__name__]
-                continue
+                return
             decorate(k, r[0], r[1], r[2], r[3], sub, e['t'], 'own', True, e['res'])
         elif code == 6:
             d, u = op[1], op[2] if len(op) > 2 else 0
@@ -511,25 +570,144 @@ def run_case(case, targets):
             if READS['n'] != n0:
                 create_reads.append(k)
             if a[0] != 'ret':
-                obs.append(3)
+                obs[k] = 3
                 details[str(k)] = list(a[:2])
-                continue
+                return
             decos.append((d, u) + a[1])
-            obs.append(0)
+            obs[k] = 0
         elif code == 5:
             i = op[1]
             if i >= len(objs):
-                obs.append(0)
+                obs[k] = 0
             else:
                 n0 = READS['n']
                 c, det = probe(objs[i], applied)
                 if READS['n'] != n0:
                     call_reads.append(k)
-                obs.append(c)
+                obs[k] = c
                 if det:
                     details[str(k)] = det
+        elif code in (11, 12):
+            obs[k] = 0                              # no overlapping decoration is open: nothing happens
         else:
-            obs.append(8)
+            obs[k] = 8
+
+    def exec_nodes(nodes):
+        for node in nodes:
+            if node[0] == 'op':
+                exec_op(node[1], node[2])
+            else:
+                exec_outer(node[1])
+
+    def exec_outer(node):
+        """an overlapping decoration (op 10 .. 12)"""
+        op = node['op']
+        d, t, u, hook, thread = (list(op) + [0] * 6)[1:6]
+        segs = node['segs']
+        k_obs = node['end'] if node['end'] is not None else node['k']
+        if not (2 <= d <= 6 and t in (0, 1, 2) and 0 <= u <= 3 and thread in (0, 1, 2)):
+            for seg in segs:                        # not an input: only the operations inside happen
+                exec_nodes(seg)
+            return
+        st = {'next': 0, 'armed': True}
+        to_main, to_deco = queue.Queue(), queue.Queue()
+
+        def run_seg(i):
+            if thread == 2:
+                th = threading.Thread(target=guarded, args=(lambda: exec_nodes(segs[i]),), daemon=True)
+                th.start()
+                th.join(HANDOVER_TIMEOUT)
+                if th.is_alive():
+                    problem('a segment running in a second thread did not finish')
+            else:
+                exec_nodes(segs[i])
+
+        def guarded(thunk):
+            try:
+                thunk()
+            except BaseException as ex:
+                problem('segment failed: %r' % (ex,))
+
+        def problem(text):
+            st['armed'] = False
+            st['problem'] = text
+
+        def fire():
+            """runs where the class decorator is at work; never raises into it"""
+            if not st['armed'] or st['next'] >= len(segs):
+                return
+            i = st['next']
+            st['next'] += 1
+            try:
+                if thread == 1:
+                    to_main.put(('seg', i))
+                    to_deco.get(timeout=HANDOVER_TIMEOUT)
+                else:
+                    run_seg(i)
+            except BaseException as ex:
+                problem('hook failed: %r' % (ex,))
+
+        journal = None
+        if hook == 0 and d == 6:
+            if u == 0:
+                journal = Journal()
+                base_inner = custom_decorator(journal)
+            else:
+                base_inner = {1: p_pedantic, 2: trace, 3: timer}[u]
+
+            def inner(f):
+                fire()
+                return base_inner(f)
+            deco = for_all_methods(inner)
+            given = targets.make_cls(t)
+        else:
+            deco, journal = make_deco(d, u, direct=True)
+            given = with_hooks(targets.make_cls(t), max(1, len(segs)), fire)
+
+        def in_second_thread(call):
+            box = {}
+
+            def body():
+                try:
+                    box['r'] = ('ret', call())
+                except BaseException as ex:
+                    box['r'] = ('exc', ex)
+                to_main.put(('done',))
+            th = threading.Thread(target=body, daemon=True)
+            th.start()
+            while True:
+                try:
+                    msg = to_main.get(timeout=HANDOVER_TIMEOUT)
+                except queue.Empty:
+                    problem('the decorating thread neither finished nor reached a hook')
+                    raise RuntimeError('handover timeout')
+                if msg[0] == 'done':
+                    break
+                guarded(lambda: exec_nodes(segs[msg[1]]))
+                to_deco.put('go')
+            th.join(HANDOVER_TIMEOUT)
+            if box['r'][0] == 'exc':
+                raise box['r'][1]
+            return box['r'][1]
+
+        def overlapping(target):
+            try:
+                return in_second_thread(lambda: deco(target)) if thread == 1 else deco(target)
+            finally:
+                st['armed'] = False
+                while st['next'] < len(segs):       # hooks that never fired: their operations follow now, in order
+                    i = st['next']
+                    st['next'] += 1
+                    if 'problem' in st:
+                        break
+                    run_seg(i)
+
+        decorate(k_obs, d, u, overlapping, journal, given, t, 'm')
+        if 'problem' in st:
+            obs[k_obs] = 8
+            details[str(k_obs)] = [st['problem']]
+
+    exec_nodes(parse_history(case['ops']))
     return {'obs': obs, 'details': details, 'call_reads': call_reads, 'create_reads': create_reads}
 
 
